@@ -17,6 +17,7 @@ object identity AND by mutating one symbol's prefixes / type / dimensions and re
 import copy
 import json
 import os
+from concurrent.futures import ThreadPoolExecutor
 
 from vf import tlc, par, ir_expr, render_class
 from vf.core import MachineryError, exc_record
@@ -115,6 +116,33 @@ def trace_agrees(model_hist, rec):
     if len(rec) != len(model_hist):
         return False, "recorded walk has %d callbacks, model %d" % (len(rec), len(model_hist))
     return True, ""
+
+
+# parsed (and walked with the recording listener) once in the parent before the workers are forked, so that they inherit
+# ANTLR's lazily learnt prediction automata instead of each learning them again; the result is dropped
+WARMUP = """model M "doc \\"q\\""
+  import A.B; import R = A.C; import P.Q.*; import L.{n1, n2, n3};
+  extends Base; extends Lib.Base2(p = 2, q = 3);
+  parameter input Real[3] a[2](start = 1, min = k) = 5 "c1" + "c2", b, c[n] "d";
+  flow Lib.T f, g(nominal = 2);
+  type T2 = Lib.U(min = 0, max = 9);
+  model In "inner" parameter Real w[2] = 2; equation e91 = 91; public Real t; initial equation e92 = 92; end In;
+public
+  Real x1, y1;
+protected
+  discrete Integer u = 8;
+equation
+  e11 = 11; e12 = 12;
+initial equation
+  e21 = 21;
+algorithm
+  s31 := 31;
+initial algorithm
+  s41 := 41;
+public
+  constant output Real z "\\"";
+end M;
+"""
 
 
 def rel_tags(tags, obs):
@@ -365,19 +393,31 @@ def run(ctx):
     thorough = ctx.tier == "thorough"
     procs = min(16, os.cpu_count() or 4, int(os.environ.get("VERIF_PROCS", "16")))
     cfg = "ClassDecl_thorough.cfg" if thorough else "ClassDecl_quick.cfg"
-    par.start(procs)      # fork the workers while the parent is still small
-    r = tlc.run("ClassDecl", cfg, workers=1, coverage=False, timeout=3000)
-    ctx.add_tlc(r, "listener machine = declared content, no shared objects, orders, duplicates (intended switches)")
-    if r.violated or r.deadlock:
-        raise MachineryError("spec ClassDecl (%s) violates its own properties: %s\n%s" % (cfg, r.violated, r.cex[:2000]))
-    progs = r.tr("PROG")
-    if not progs:
-        raise MachineryError("TLC printed no program")
+    tree, exc = parse(WARMUP)
+    if exc is None and tree is not None:
+        traced_walk(WARMUP)
+    par.start(procs)      # fork the workers while the parent is still small (and already warm)
+    # the TLC runs are independent of each other: families split over two runs in the quick tier, the as-built run alongside
+    cfgs = [cfg] if thorough else [cfg, "ClassDecl_quick2.cfg"]
+    with ThreadPoolExecutor(len(cfgs) + 1) as ex:
+        futs = [ex.submit(tlc.run, "ClassDecl", c, workers=1, coverage=False, timeout=3000) for c in cfgs]
+        fa = ex.submit(tlc.run, "ClassDecl", "ClassDecl_asbuilt.cfg", workers=1, timeout=1200)
+        runs = [f.result() for f in futs]
+        ra = fa.result()
+    progs = []
+    for c, r in zip(cfgs, runs):
+        ctx.add_tlc(r, "listener machine = declared content, no shared objects, orders, duplicates (intended switches, %s)" % c)
+        if r.violated or r.deadlock:
+            raise MachineryError("spec ClassDecl (%s) violates its own properties: %s\n%s" % (c, r.violated, r.cex[:2000]))
+        ps = r.tr("PROG")
+        if not ps:
+            raise MachineryError("TLC printed no program (%s)" % c)
+        if r.distinct != sum(p["nevents"] for p in ps) + 2 * len(ps):
+            raise MachineryError("TLC explored %d states for %s, expected %d callbacks + 2 per program" % (
+                r.distinct, c, sum(p["nevents"] for p in ps)))
+        progs += ps
     nev = sum(p["nevents"] for p in progs)
-    if r.distinct != nev + 2 * len(progs):
-        raise MachineryError("TLC explored %d states, expected %d callbacks + 2 per program" % (r.distinct, nev + 2 * len(progs)))
     # as-built switches: TLC itself must find that the model of the pinned code violates the property
-    ra = tlc.run("ClassDecl", "ClassDecl_asbuilt.cfg", workers=1, timeout=1200)
     ctx.add_tlc(ra, "as-built switches (TLC is expected to report a violated invariant)")
     asbuilt_violates = bool(ra.violated)
 
